@@ -40,6 +40,8 @@ type Space struct {
 	Ctl   []string `json:"ctl"`   // control events
 	Depth int      `json:"depth"` // maximum history length
 	Keys  int      `json:"keys"`  // bound on recorded HTLCs (0 = 3)
+	Extra []string `json:"extra"` // further events (not crossed with amounts and expiries)
+	Two   bool     `json:"two"`   // a bystander invoice exists next to the invoice under test
 }
 
 // Alphabet lists the events, simplest first.
@@ -52,6 +54,7 @@ func (s Space) Alphabet() []string {
 			}
 		}
 	}
+	a = append(a, s.Extra...)
 	return append(a, s.Ctl...)
 }
 
@@ -73,13 +76,13 @@ func spaces(thorough bool) []Space {
 			{Name: "keysend", Kind: "keysend", Pays: []string{"Kr", "Kw", "Km", "L", "Mr0"}, Amts: amts5, Exps: lo, Ctl: ctlR, Depth: 4},
 			{Name: "amp", Kind: "amp", Pays: []string{"A10r0g", "A11r0g", "A11r0b", "A11r+g", "A11w0g", "A2sr0g", "Mr0", "L"}, Amts: amts3, Exps: lo, Ctl: ctlR, Depth: 3},
 			{Name: "amp-core", Kind: "amp", Pays: []string{"A10r0g", "A11r0g", "A11r0b", "A2sr0g"}, Amts: []int64{valueV / 2, valueV}, Exps: []string{"ok"}, Ctl: ctlR, Depth: 4},
-		}, specialSpaces(4, false)...)
+		}, append(specialSpaces(4, false), configSpaces(false)...)...)
 	}
 	exps := []string{"ok", "lo", "hi"}
 	ctlR4 := []string{"r:1", "r:2", "r:3", "r:4", "c", "t", "b"}
 	ctlH4 := []string{"r:1", "r:2", "r:3", "r:4", "c", "s:r", "s:w", "t", "b"}
 	// ordered so that the largest spaces run last (a deadline then caps only them)
-	return append(specialSpaces(5, true), []Space{
+	return append(append(specialSpaces(5, true), configSpaces(true)...), []Space{
 		{Name: "ampjit", Kind: "ampjit", Pays: []string{"A10r0g", "A11r0g", "A11r0b", "A11r+g", "A2sr0g", "A2sr-g"}, Amts: amts3, Exps: exps, Ctl: ctlR, Depth: 3},
 		{Name: "keysend", Kind: "keysend", Pays: []string{"Kr", "Kw", "Km", "L", "Mr0"}, Amts: amts5, Exps: exps, Ctl: ctlR, Depth: 5},
 		{Name: "zero", Kind: "zero", Pays: []string{"L", "Mr0", "Mr+", "Mr-", "Mw0"}, Amts: amts5, Exps: exps, Ctl: ctlR, Depth: 4},
@@ -112,16 +115,83 @@ func specialSpaces(depth int, thorough bool) []Space {
 	am := []int64{0, valueV / 2, valueV}
 	ex := []string{"ok", "z"}
 	ctlHz := []string{"r:1", "r:2", "r:3", "c", "s:r", "s:z", "t", "b"}
+	// HTLCs that refer to the bystander invoice of a "two" world: this invoice's hash with the
+	// bystander's address, the bystander's hash with this invoice's / a wrong / the blank
+	// address, a legacy HTLC on the bystander's hash
+	foreign := []string{"h:Mo0:1000:ok", "h:Yr0:1000:ok", "h:Yw0:1000:ok", "h:Yz0:1000:ok", "h:y:1000:ok"}
 	sp := []Space{
-		{Name: "regular-special", Kind: "regular", Pays: []string{"L", "Mr0", "Mz0", "Mrz", "Mzz", "Zr0", "Zz0"}, Amts: am, Exps: ex, Ctl: ctlR, Depth: depth},
-		{Name: "hold-special", Kind: "hold", Pays: []string{"L", "Mr0", "Mz0", "Mrz", "Zr0"}, Amts: am, Exps: ex, Ctl: ctlHz, Depth: depth},
-		{Name: "zero-special", Kind: "zero", Pays: []string{"L", "Mr0", "Mz0", "Mrz", "Mzz", "Zr0"}, Amts: am, Exps: ex, Ctl: ctlR, Depth: depth},
-		{Name: "blinded-special", Kind: "blinded", Pays: []string{"L", "Pr0", "Pz0", "Prz", "Pzz", "Mz0", "Zr0"}, Amts: am, Exps: ex, Ctl: ctlR, Depth: depth},
+		{Name: "regular-special", Kind: "regular", Pays: []string{"L", "Mr0", "Mz0", "Mrz", "Mzz", "Zr0", "Zz0"}, Amts: am, Exps: ex, Ctl: ctlR, Depth: depth, Two: true,
+			Extra: append(append([]string{}, foreign...), "h:kw:1000:ok", "h:kz:1000:ok", "h:A2sr0g:1000:ok", "h:A2so0g:1000:ok",
+				"h:Mr0:1000:x", "h:Mr0:1000:X", "h:MrH:H:ok", "h:MrG:H:ok", "h:L:I:ok")},
+		{Name: "hold-special", Kind: "hold", Pays: []string{"L", "Mr0", "Mz0", "Mrz", "Zr0"}, Amts: am, Exps: ex, Ctl: ctlHz, Depth: depth, Two: true,
+			Extra: append(append([]string{}, foreign...), "h:kw:1000:ok", "h:A2sr0g:1000:ok", "h:MrG:H:x")},
+		{Name: "zero-special", Kind: "zero", Pays: []string{"L", "Mr0", "Mz0", "Mrz", "Mzz", "Zr0"}, Amts: am, Exps: ex, Ctl: ctlR, Depth: depth, Two: true,
+			Extra: append(append([]string{}, foreign...), "h:kw:1000:ok")},
+		{Name: "blinded-special", Kind: "blinded", Pays: []string{"L", "Pr0", "Pz0", "Prz", "Pzz", "Mz0", "Zr0"}, Amts: am, Exps: ex, Ctl: ctlR, Depth: depth, Two: true,
+			Extra: append(append([]string{}, foreign...), "h:Po0:1000:ok")},
 		{Name: "keysend-special", Kind: "keysend", Pays: []string{"Kr", "Kz", "Km", "L", "Mz0", "Mr0", "Zz0"}, Amts: am, Exps: ex, Ctl: ctlR, Depth: depth},
-		{Name: "amp-special", Kind: "amp", Pays: []string{"A2sr0g", "A3sr0g", "A2sz0g", "A2srzg", "A10r0g", "A11r0g", "A11z0g", "A30r0g", "Mz0"}, Amts: am, Exps: []string{"ok"}, Ctl: ctlR, Depth: depth},
+		{Name: "amp-special", Kind: "amp", Pays: []string{"A2sr0g", "A3sr0g", "A2sz0g", "A2srzg", "A10r0g", "A11r0g", "A11z0g", "A30r0g", "Mz0"}, Amts: am, Exps: []string{"ok"}, Ctl: ctlR, Depth: depth, Two: true,
+			Extra: append(append([]string{}, foreign...), "h:A2so0g:1000:ok")},
 	}
 	if thorough {
 		sp = append(sp, Space{Name: "ampjit-special", Kind: "ampjit", Pays: []string{"A2sr0g", "A3sr0g", "A2sz0g", "A2srzg", "A10r0g", "A11r0g"}, Amts: am, Exps: []string{"ok"}, Ctl: ctlR, Depth: 3})
+	}
+	return sp
+}
+
+// configSpaces: the dimensions of the registry and of its environment that the other spaces
+// hold fixed, each crossed with the states in which it matters (small alphabets, so that the
+// depth can cover "accept / cancel / restart / replay / complete the set"):
+//
+//	RegistryConfig.KeysendHoldTime != 0    kinds kshold*: a spontaneous keysend payment creates a HOLD invoice (preimage
+//	                                       known, settled by SettleHodlInvoice, cancelable)
+//	GcCanceledInvoicesOnTheFly / OnStartup kinds *-gcf / *-gcs: a canceled invoice is deleted; a settled or open one never is
+//	restart "R"                            the registry is stopped and a new one started on the same store: subscriptions and
+//	                                       auto-release timers are gone until the links replay; HTLCs found accepted in the
+//	                                       store may be older than the hold time
+//	AcceptKeySend / AcceptAMP = true       kind regular-jit: spontaneous-payment processing runs in front of a payment to an
+//	                                       invoice created up front (keysend record / AMP record on such an HTLC)
+//	HtlcInterceptor                        answers CancelSet ("hx:") or AmountPaid ("ha:") for single HTLCs
+//	a second invoice in the store          Two: HTLCs that mix the hash of one invoice with the payment address of the other
+//	hold x zero-amount                     kind holdzero
+func configSpaces(thorough bool) []Space {
+	d := 0
+	if thorough {
+		d = 1
+	}
+	ok := []string{"ok"}
+	half := []int64{valueV / 2, valueV}
+	sp := []Space{
+		{Name: "kshold", Kind: "kshold", Pays: []string{"Kr", "Kw", "L"}, Amts: half, Exps: []string{"ok", "lo"},
+			Ctl: []string{"r:1", "r:2", "c", "s:r", "s:w", "t", "b", "R"}, Depth: 4 + d},
+		{Name: "kshold-gcf", Kind: "kshold-gcf", Pays: []string{"Kr"}, Amts: []int64{valueV}, Exps: ok,
+			Ctl: []string{"r:1", "r:2", "c", "s:r", "R"}, Depth: 5 + d},
+		{Name: "regular-restart", Kind: "regular-gcs", Pays: []string{"Mr0"}, Amts: half, Exps: ok,
+			Ctl: []string{"r:1", "r:2", "r:3", "c", "t", "R"}, Depth: 5 + d, Two: true},
+		{Name: "hold-restart", Kind: "hold-gcf", Pays: []string{"Mr0", "L"}, Amts: half, Exps: ok,
+			Ctl: []string{"r:1", "r:2", "c", "s:r", "t", "R"}, Depth: 5 + d, Two: true},
+		{Name: "amp-restart", Kind: "amp", Pays: []string{"A10r0g", "A11r0g"}, Amts: []int64{valueV / 2}, Exps: ok,
+			Extra: []string{"h:A2sr0g:1000:ok"}, Ctl: []string{"r:1", "r:2", "c", "t", "R"}, Depth: 5 + d, Two: true},
+		{Name: "regular-jit", Kind: "regular-jit", Pays: []string{"L", "Mr0"}, Amts: half, Exps: ok,
+			Extra: []string{"h:kw:1000:ok", "h:kz:1000:ok", "h:A2sr0g:1000:ok", "h:A2so0g:1000:ok", "h:Mo0:1000:ok"},
+			Ctl: []string{"r:1", "r:2", "c", "t"}, Depth: 3 + d, Two: true},
+		{Name: "hold-zero", Kind: "holdzero", Pays: []string{"L", "Mr-", "Mr0"}, Amts: []int64{valueV/2 - 1, valueV / 2}, Exps: []string{"ok", "lo"},
+			Ctl: []string{"r:1", "r:2", "c", "s:r", "t"}, Depth: 4 + d},
+		{Name: "regular-icpt", Kind: "regular", Pays: []string{"Mr0"}, Amts: half, Exps: ok,
+			Extra: []string{"hx:Mr0:500:ok", "ha:Mr0:500:ok", "ha:Mr+:500:ok", "hx:L:1000:ok"},
+			Ctl: []string{"r:1", "r:2", "c", "t"}, Depth: 4 + d},
+	}
+	if thorough {
+		sp = append(sp,
+			Space{Name: "amp-gc", Kind: "amp-gcf", Pays: []string{"A10r0g", "A11r0g"}, Amts: []int64{valueV / 2}, Exps: ok,
+				Extra: []string{"h:A2sr0g:1000:ok"}, Ctl: []string{"r:1", "r:2", "c", "t", "R"}, Depth: 5, Two: true},
+			Space{Name: "hold-icpt", Kind: "hold", Pays: []string{"Mr0"}, Amts: half, Exps: ok,
+				Extra: []string{"hx:Mr0:500:ok", "ha:Mr0:500:ok", "hx:L:1000:ok"},
+				Ctl: []string{"r:1", "r:2", "c", "s:r", "t"}, Depth: 5},
+			Space{Name: "amp-icpt", Kind: "amp", Pays: []string{"A10r0g", "A11r0g"}, Amts: []int64{valueV / 2}, Exps: ok,
+				Extra: []string{"hx:A11r0g:500:ok", "hx:A2sr0g:1000:ok", "ha:A2sr0g:500:ok"},
+				Ctl: []string{"r:1", "r:2", "c", "t"}, Depth: 5},
+		)
 	}
 	return sp
 }
@@ -130,6 +200,7 @@ func specialSpaces(depth int, thorough bool) []Space {
 type replayDoc struct {
 	Kind    string   `json:"kind"`
 	Keys    int      `json:"keys,omitempty"`
+	Two     bool     `json:"two,omitempty"`
 	Stores  []string `json:"stores,omitempty"`
 	History []string `json:"history,omitempty"`
 	// Conc, if set, is an interleaving case (conc_test.go).
@@ -190,7 +261,7 @@ func replayWith(doc replayDoc, rep reporter, logf func(string, ...any)) int {
 	if doc.Conc != nil {
 		return replayConcDoc(doc, rep, logf)
 	}
-	w, err := newWorld(worldOpts{kind: doc.Kind, keys: doc.Keys, stores: doc.Stores, rep: rep, logf: logf})
+	w, err := newWorld(worldOpts{kind: doc.Kind, keys: doc.Keys, two: doc.Two, stores: doc.Stores, rep: rep, logf: logf})
 	if err != nil {
 		fmt.Printf("INFO cannot build world: %v\n", err)
 		return 0
@@ -248,10 +319,10 @@ func runSpace(run *evid.Run, sp Space, st *Stats, deadline time.Time, workers in
 		New: func(worker int) (seqmc.Sys, error) {
 			var w *World
 			rep := func(sig, what string, hist, full []string) {
-				theGate.report(run, sig, what, replayDoc{Kind: sp.Kind, Keys: sp.Keys, History: hist}, full)
+				theGate.report(run, sig, what, replayDoc{Kind: sp.Kind, Keys: sp.Keys, Two: sp.Two, History: hist}, full)
 			}
 			var err error
-			w, err = newWorld(worldOpts{kind: sp.Kind, keys: sp.Keys, rep: rep, st: st})
+			w, err = newWorld(worldOpts{kind: sp.Kind, keys: sp.Keys, two: sp.Two, rep: rep, st: st})
 			if err != nil {
 				return nil, err
 			}
@@ -285,7 +356,7 @@ func runSpace(run *evid.Run, sp Space, st *Stats, deadline time.Time, workers in
 		},
 	}, func(hist []string, v any) {
 		theGate.report(run, "panic:"+sp.Kind+":"+firstLine(fmt.Sprint(v)), fmt.Sprintf("panic while executing %v: %v", hist, v),
-			replayDoc{Kind: sp.Kind, Keys: sp.Keys, History: hist}, nil)
+			replayDoc{Kind: sp.Kind, Keys: sp.Keys, Two: sp.Two, History: hist}, nil)
 	})
 	return spaceResult{res: res, wall: time.Since(t0).Seconds(), ntri: ntri, settle: settle}
 }
